@@ -34,6 +34,11 @@ func verifC11Frame(kind int, payload []byte) []byte {
 
 func verifC11Ws(nframes int, dataFrames bool) {
 	tr := verifNewTracker()
+	if nframes > 2 {
+		// the poison trap does not depend on which buffer the pool returns;
+		// three-frame sequences run with the LIFO pool to stay within reach
+		verifPoolMode(0)
+	}
 	ep := verifNewEndpoint(false, false, 0, tr)
 	if dataFrames {
 		ep.u.OnDataFrame(func(c *Conn, mt MessageType, fin bool, data []byte) {
@@ -67,7 +72,7 @@ func verifC11Ws(nframes int, dataFrames bool) {
 	verifAssertD(tr.frees <= tr.mallocs, "no-more-frees-than-allocations", "")
 	// delivered payloads were copied by the handler before release: still intact
 	for _, m := range ep.msgs {
-		verifAssertD(len(m.data) <= 4, "delivered-payload-plausible", "")
+		verifAssertD(len(m.data) <= 2*nframes, "delivered-payload-plausible", "")
 	}
 }
 
